@@ -7,17 +7,30 @@
 
    [seq_machine_agrees]: a statement whose execution by [exec] terminates normally, and which (with everything it calls) contains
    no synchronisation primitive, run as the only thread of the machine from the same state, finishes (status TDone) with the
-   same memory, files, pointer table, heap counter and local variables.
+   same memory, files, pointer table, heap counter and local variables, having logged the thread-exit event (14,0,0) and nothing else.
+   [seq_machine_agrees_any]: the same for any thread id, any other threads, held mutexes and event prefix, and for EVERY fuel of
+   run_thread (NoFuel up to some n, the finished thread above it); it needs only the well-formedness half of [seq_ok]
+   ([wf_ok]: breaks inside loops): a statement [exec] runs successfully executes no synchronisation primitive anyway, [do_prim] has
+   no rule for them (RefineSeqA.sync_prim_no_exec).
+   (The general form under an arbitrary continuation and for the outcomes Broke / Returned is RefineSeq.sim.)
 
    [verify_file_is_sequential]: the instance for verification (runcrypt::execute_verify starts no thread): what SrcRun5.src_verify_file
-   returns under ANY scheduler seed is what the sequential semantics computes for SrcRun5.whole_main WVer. *)
+   returns under ANY scheduler seed is what the sequential semantics computes for SrcRun5.whole_main WVer -- the returned boolean is
+   the value [exec] leaves in "result", the streams are those of [exec]'s final state, the run takes ONE scheduling step.
+   The number of machine steps is not bounded by the (depth-counting) fuel of [exec]; the fixed fuel of SrcRun5.run_from may
+   therefore be too small for some input, and the only other possible answer is SErr "out of fuel" (no UB, no deadlock,
+   no "step bound reached", no "no result"). *)
 From Coq Require Import ZArith NArith List String Bool.
-From Wencry Require Import Bytes MiniC MiniCRun MiniCConc SrcRun SrcRun2 SrcRun5 RefineSeq.
+From Wencry Require Import Bytes MiniC MiniCRun MiniCConc SrcRun SrcRun2 SrcRun5 RefineSeqDefs RefineSeq RefineSeqVerify.
 Import ListNotations.
 Local Open Scope Z_scope.
 
-(* [seq_ok prog fuel st]: neither st nor any function reachable from it through at most `fuel` nested calls names a synchronisation
-   primitive (lock, unlock, cv_wait, notify_all, join, wv_yield, wv_ev, spawn:...) -- defined in RefineSeq.v as a boolean function *)
+(* [seq_ok prog fuel st] (RefineSeqDefs.v, a boolean function): neither st nor any function reachable from it through at most
+   `fuel` nested calls (a virtual call of m reaches every function of prog named <class>::m) names a synchronisation primitive
+   (lock, unlock, cv_wait, notify_all, join, wv_yield, wv_ev, spawn:...), and every `break` of a reachable function body is inside
+   a loop of that body.  The second condition holds for every C++ function; it is there because the two semantics differ on a
+   stray break (RefineSeq.stray_break_exec / stray_break_machine: exec reads it as a void return, the machine as UB).
+   [wf_ok] is [seq_ok] without the condition on primitives. *)
 Theorem seq_machine_agrees : forall prog vt fuel st s out s',
   seq_ok prog fuel st = true ->
   exec prog vt fuel st s = Ok (out, s') ->
@@ -29,20 +42,48 @@ Theorem seq_machine_agrees : forall prog vt fuel st s out s',
       {| cs_sh := shared_of s;
          cs_thr := [{| ct_cur := st; ct_k := KStop; ct_loc := loc s; ct_pre := pre s; ct_st := TRun |}]; cs_mx := [] |} []
     = Ok ({| cs_sh := shared_of s';
-             cs_thr := [{| ct_cur := SSkip; ct_k := KStop; ct_loc := loc s'; ct_pre := pre s; ct_st := TDone |}]; cs_mx := [] |}, []).
+             cs_thr := [{| ct_cur := SSkip; ct_k := KStop; ct_loc := loc s'; ct_pre := pre s; ct_st := TDone |}]; cs_mx := [] |}, [(14, 0, 0)]).
 Proof. exact seq_machine_agrees_proof. Qed.
 Print Assumptions seq_machine_agrees.
 
+Theorem seq_machine_agrees_any : forall prog vt fuel sf st s out s',
+  wf_ok prog sf st = true ->
+  exec prog vt fuel st s = Ok (out, s') ->
+  normal_outcome out = true ->
+  forall stt, stt <> TDone ->
+  exists n, forall big tid first thr mx evs,
+    run_thread prog vt big tid first
+      {| ct_cur := st; ct_k := KStop; ct_loc := loc s; ct_pre := pre s; ct_st := stt |}
+      {| cs_sh := shared_of s; cs_thr := thr; cs_mx := mx |} evs
+    = if (big <=? n)%nat then NoFuel
+      else Ok ({| cs_sh := shared_of s';
+                  cs_thr := set_nth_t tid {| ct_cur := SSkip; ct_k := KStop; ct_loc := loc s'; ct_pre := pre s; ct_st := TDone |} thr;
+                  cs_mx := mx |}, evs ++ [(14, 0, 0)]).
+Proof. exact seq_machine_agrees_gen. Qed.
+Print Assumptions seq_machine_agrees_any.
+
+(* the check holds for verification, for every thread count and file size (and fails for encryption and decryption, which
+   start worker threads: RefineSeqVerify.decrypt_not_seq_ok, encrypt_not_seq_ok) *)
+Theorem verify_is_seq_ok : forall T cm hm ne fsize, seq_ok whole_prog 40 (whole_main WVer T cm hm ne fsize) = true.
+Proof. exact verify_seq_ok. Qed.
+Print Assumptions verify_is_seq_ok.
+
 Theorem verify_file_is_sequential : forall c hbuf T F key rnd fuel out s',
   exec whole_prog [] fuel (whole_main WVer T (-1) (-1) true (Z.of_nat (List.length F))) (whole_state c hbuf T (-1) (-1) true F key []) = Ok (out, s') ->
-  normal_outcome out = true ->
-  (fuel <= 400000)%nat ->
   match src_verify_file c hbuf T F key rnd with
-  | SOk (b, o, i, _) =>
+  | SOk (b, o, i, steps) =>
       lget (loc s') "result" = Some (VInt (if b then 1 else 0)) /\
       o = match lget (files s') "fout" with Some f => map Z.to_N (cf_data f) | None => [] end /\
-      i = match lget (files s') "fin" with Some f => map Z.to_N (cf_data f) | None => [] end
-  | SErr _ => False
+      i = match lget (files s') "fin" with Some f => map Z.to_N (cf_data f) | None => [] end /\
+      steps = 1%nat
+  | SErr w => w = "out of fuel"%string
   end.
 Proof. exact verify_file_is_sequential_proof. Qed.
 Print Assumptions verify_file_is_sequential.
+
+(* in particular the scheduler seed does not matter *)
+Theorem verify_file_seed_independent : forall c hbuf T F key fuel out s',
+  exec whole_prog [] fuel (whole_main WVer T (-1) (-1) true (Z.of_nat (List.length F))) (whole_state c hbuf T (-1) (-1) true F key []) = Ok (out, s') ->
+  forall rnd rnd', src_verify_file c hbuf T F key rnd = src_verify_file c hbuf T F key rnd'.
+Proof. exact verify_file_seed_independent_proof. Qed.
+Print Assumptions verify_file_seed_independent.
